@@ -369,6 +369,24 @@ func (m *Model) ruleHLCSeed(r *Results, rule string) {
 				}
 				if ok, _ := mustPassThrough(g, []*ssa.BasicBlock{c.Block()}, nil); ok {
 					out, outFr = s, sfr
+				} else {
+					// the helper also registers the bucket (a "finish opening" phase with early error
+					// returns): there the seeding has to come before the registration
+					dom := false
+					m.eachCall(g, func(rg ssa.CallInstruction) {
+						h := rg.Common().StaticCallee()
+						if h == nil || !m.inPkg(h) || a.CloneFn == nil || !m.reachableLocal(h)[a.CloneFn] || rg == c {
+							return
+						}
+						if c.Block() == rg.Block() && indexIn(c.Block(), c) < indexIn(rg.Block(), rg) || c.Block() != rg.Block() && c.Block().Dominates(rg.Block()) {
+							dom = true
+						} else {
+							dom = false
+						}
+					})
+					if dom {
+						out, outFr = s, sfr
+					}
 				}
 			})
 			return out, outFr
@@ -392,6 +410,9 @@ func (m *Model) ruleHLCSeed(r *Results, rule string) {
 	// dominates every registration that happens after the DB was opened
 	okDom := true
 	for _, rg := range regs {
+		if rg == anchor {
+			continue // seeded and registered inside the same helper, in that order (checked there)
+		}
 		if open != nil && (open.Block() == rg.Block() || open.Block().Dominates(rg.Block())) {
 			if !(anchor.Block() == rg.Block() && indexIn(anchor.Block(), anchor) < indexIn(rg.Block(), rg) || anchor.Block() != rg.Block() && anchor.Block().Dominates(rg.Block())) {
 				okDom = false
@@ -1136,6 +1157,16 @@ func (m *Model) ruleQUEUE(r *Results) {
 	// every method locks the queue's lock with a paired unlock on all paths
 	for _, fn := range []*ssa.Function{push[0], pull[0], cls[0]} {
 		lc := listCalls(fn)
+		// (also through an acquire helper that hands back the release: `defer q.lock()()`)
+		m.eachCall(fn, func(c ssa.CallInstruction) {
+			if op, ok := m.lockOpOf(c); ok {
+				if op.Acquire {
+					lc["Lock"] = true
+				} else {
+					lc["Unlock"] = true
+				}
+			}
+		})
 		r.check(lc["Lock"] && lc["Unlock"], rule, m.declName(fn)+" / locked", m.pos(fn.Pos()), "operates under the queue lock", "queue method does not take the queue lock")
 	}
 }
@@ -1488,8 +1519,29 @@ func (m *Model) ruleCLOSED(r *Results) {
 	}
 	allowed[a.TxnRunner] = "transaction runner"
 	allowed[a.ShutdownFn] = "shutdown routine"
+	for _, st := range a.ShutdownSteps {
+		allowed[st] = "shutdown routine"
+	}
 	allowed[a.CloneFn] = "handle copy"
 	allowed[a.OpenFn] = "constructor"
+	// phases of the open function: unexported functions that only the open function calls
+	for _, f := range m.Funcs {
+		if f.Parent() != nil || !m.inPkg(f) || (f.Object() != nil && f.Object().Exported()) {
+			continue
+		}
+		callers := m.staticCallersOf(f)
+		only := len(callers) > 0
+		for _, c := range callers {
+			if rootOf(c.Parent()) != a.OpenFn {
+				only = false
+			}
+		}
+		if only {
+			if _, have := allowed[f]; !have {
+				allowed[f] = "constructor"
+			}
+		}
+	}
 	for _, fn := range m.Funcs {
 		for _, b := range fn.Blocks {
 			for _, in := range b.Instrs {
